@@ -163,6 +163,11 @@ def default_knobs(rng: Rng, profile: str) -> Dict[str, Any]:
     k["corr_base"] = rng.choice([2**31 - 60, 2**32 + 5, 2**53 - 40, 2**53 + 1, 2**62]) if (profile in ("loader", "symtab") and rng.chance(0.1)) else 0
     k["nested_bwd"] = profile == "callgraph" and rng.chance(0.15)
     k["host_ids_as_device"] = profile == "callgraph" and rng.chance(0.08)
+    # (round 8) magnitudes of the remaining id-like fields: stream ids are unsigned 32-bit in CUPTI, the step
+    # counter is part of a name, a container's entry point is process 1 / thread 1
+    k["big_streams"] = profile in ("loader", "symtab") and rng.chance(0.08)
+    k["big_steps"] = profile in ("loader", "symtab") and rng.chance(0.08)
+    k["small_tids"] = rng.choice([1, 2, 3]) if (profile == "callgraph" and rng.chance(0.12)) else 0
     k["long_kernels"] = profile in ("callgraph", "loader", "env") and rng.chance(0.12)
     k["name_explosion"] = 0
     k["zero_dur_kernels"] = (not k["fractional"]) and profile in ("callgraph", "loader", "symtab", "env") and rng.chance(0.3)
@@ -201,6 +206,8 @@ class _RankGen:
         self.host_pid = 1000 + rank_pos * 17 + rng.below(5)
         self.dev = 0 if knobs["device_pid"] == "zero" else (rank_pos % 8)
         all_streams = [7, 20, 24, 28, 32]
+        if knobs.get("big_streams"):
+            all_streams = [2**31 + 7, 7, 2**32 - 1, 2**31 - 1, 2**16]
         n_streams = knobs["streams"]
         self.multi_thread = knobs["threads"] != "main"
         if knobs["causal"] and self.multi_thread:
@@ -213,6 +220,8 @@ class _RankGen:
         self.corr = 100 + rng.below(50) + (0 if knobs.get("corr_overlap") else rank_pos * 100000)
         if knobs.get("corr_base"):
             self.corr = int(knobs["corr_base"]) + (0 if knobs.get("corr_overlap") else rank_pos * 100000)
+        if knobs.get("small_tids"):
+            self.host_pid = int(knobs["small_tids"])
         if knobs.get("host_ids_as_device"):
             # a containerised trainer: process id and thread id of the host thread equal the device id and the
             # stream id of its device activities
@@ -809,6 +818,8 @@ def gen_world(rng: Rng, profile: str = "loader", overrides: Optional[Dict[str, A
     if knobs.get("odd_names"):
         odd = vr.sample(ODD_OP_NAMES, vr.randint(2, 4))
         base_vocab["ops"] = base_vocab["ops"] + odd
+    if knobs.get("big_steps"):
+        knobs["step_base"] = rng.fork("bigsteps").choice([2**31 - 2, 2**31 + 5, 2**32 - 1, 2**32 + 1, 2**40])
     step_names = [f"ProfilerStep#{knobs['step_base'] + i}" for i in range(knobs["steps"])]
     files = []
     generated: List[Any] = []
